@@ -1,5 +1,5 @@
 //! unit: u02b
-//! properties: C02
+//! properties: C02 C10
 //! note: RAA blockers (PeerState::actions_blocking_raa_monitor_updates): registering a blocker on a channel appends it to that channel's list and never drops a blocker already registered (for this or any other channel) -- the monitor update of the downstream peer's next revoke_and_ack stays held until every upstream preimage it depends on is durably persisted
 //! trusted: R15 (deep slices): the statement(s) that register an RAA blocker in (a) internal_update_fulfill_htlc (body of `for prev_hop in res.0.previous_hop_data()`), (b) claim_mpp_part (live-channel arm), (c) claim_mpp_part (closed-channel arm, `.or_default()`), (d) from_channel_manager_data (re-registering the blockers of queued EmitEventOptionAndFreeOtherChannel actions on reload), each verbatim as a function of the blocker map; everything around them (the channel state machine call, the preimage monitor update, the completion actions) is dropped and not claimed here
 //! trusted: R15 (deep slice): handle_monitor_update_release: the predicate of the `retain` that removes the completed blocker from its channel's list, verbatim as a bool function; RAAMonitorUpdateBlockingAction's derived PartialEq is structural equality; the retain call itself and the removal of an emptied list are dropped and not claimed; raa_monitor_updates_held: the closure body and the default of `.get(&channel_id).map(|v| ..).unwrap_or(..)` (first disjunct) are placed in the two arms of a match on the looked-up list (std semantics of Option::map / unwrap_or); the second disjunct (pending ReleaseRAAChannelMonitorUpdate events) is dropped and not claimed
@@ -113,7 +113,7 @@ pub open spec fn registered(m: Map<ChannelId, Blockers>, k: ChannelId, b: RAAMon
     blocked_peer_state .lock() .unwrap()
 //@with
     blocked_peer_state
-//@ensures P C02 on-reload-the-raa-blocker-of-a-queued-completion-action-is-registered-again-and-keeps-every-blocker-already-there
+//@ensures P C02,C10 on-reload-the-raa-blocker-of-a-queued-completion-action-is-registered-again-and-keeps-every-blocker-already-there
     final(blocked_peer_state).actions_blocking_raa_monitor_updates.m@ =~= registered(old(blocked_peer_state).actions_blocking_raa_monitor_updates.m@, *blocked_channel_id, *blocking_action),
 //@mutant reload_registers_under_the_wrong_channel
     .entry(*blocked_channel_id)
